@@ -387,7 +387,11 @@ Proof.
 Qed.
 Lemma csim_ctx_item k k' a b w : csim (kc k) (kc k') -> csim (ctx_item k a b w) (ctx_item k' a b w).
 Proof. intros H. unfold ctx_item. auto with exdb. Qed.
-#[export] Hint Resolve csim_defaults csim_ctx_item : exdb.
+Lemma csim_if (b : bool) c1 c1' c2 c2' : csim c1 c1' -> csim c2 c2' -> csim (if b then c1 else c2) (if b then c1' else c2').
+Proof. destruct b; auto. Qed.
+Lemma ctx_ok_if v og (b : bool) c1 c2 : ctx_ok v og c1 -> ctx_ok v og c2 -> ctx_ok v og (if b then c1 else c2).
+Proof. destruct b; auto. Qed.
+#[export] Hint Resolve csim_defaults csim_ctx_item csim_if ctx_ok_if : exdb.
 
 Section Erase.
 Variables rho rho' : cls -> cls.
